@@ -245,7 +245,7 @@ func c45PushCase(rt *rapid.T, env *c45Env, rec *vh.Recorder) {
 	}
 	remoteDir := filepath.Join(base, db)
 	awayDir := remoteDir + ".away"
-	async := rapid.IntRange(0, 5).Draw(rt, "async") == 0
+	async := rapid.IntRange(0, 5).Draw(rt, "async") == 5 // the largest draw: shrinking moves towards the synchronous mode
 	var log []string
 	fatalf := func(format string, args ...any) {
 		rt.Helper()
